@@ -10,6 +10,7 @@ from typing import Dict, List, Optional, Tuple
 from harness.lib.core import Rng
 
 ROUTER_PORTS = 5
+L3_KINDS = ("router", "firewall", "wrouter")
 
 
 # ------------------------------------------------------------------------------------------ generation
@@ -28,6 +29,7 @@ class Topo:
     def __init__(self):
         self.nodes: List[dict] = []
         self.links: List[List[int]] = []
+        self.air: List[List[int]] = []  # wireless "links": two access points on one frequency
         self.lans: List[dict] = []  # {"net":(a,b,c,d), "p":prefix, "router":idx, "port":k, "hosts":[idx], "used":[host numbers]}
 
     def host(self, ip: str, p: int, gw: Optional[str]) -> int:
@@ -38,9 +40,14 @@ class Topo:
         self.nodes.append({"kind": "switch", "ports": ports, "used": 0})
         return len(self.nodes) - 1
 
-    def router(self) -> int:
-        self.nodes.append({"kind": "router", "ports": [None] * ROUTER_PORTS, "routes": [], "default": None})
+    def router(self, kind: str = "router") -> int:
+        """kind: router (5 ports) | firewall (0 external, 1 internal, 2 DMZ) | wrouter (0 wireless access point, 1 wired)"""
+        nports = {"router": ROUTER_PORTS, "firewall": 3, "wrouter": 2}[kind]
+        self.nodes.append({"kind": kind, "ports": [None] * nports, "routes": [], "default": None})
         return len(self.nodes) - 1
+
+    def free_ports(self, r: int) -> int:
+        return self.nodes[r]["ports"].count(None)
 
     def swport(self, s: int) -> int:
         k = self.nodes[s]["used"]
@@ -63,6 +70,7 @@ def _attach_lan(t: Topo, rng: Rng, r: Optional[int], net, p: int, nhosts: int, v
     lan = {"net": net, "p": p, "router": r, "hosts": [], "gw": gw}
     if via_switch or nhosts != 1 or r is None:
         s = t.switch(nhosts + 2)
+        lan["switch"] = s
         order = []
         if r is not None:
             order.append("r")
@@ -108,10 +116,13 @@ def gen_case(rng: Rng, max_routers: int = 3) -> dict:
             t.lans[0]["hosts"].append(h)
         routing = "none"
     else:
-        routers = [t.router() for _ in range(nr)]
+        wireless = nr == 2 and rng.chance(1, 4)  # two wireless routers, the transit segment is an air space frequency
+        kinds = ["wrouter"] * nr if wireless else [rng.choice(["router", "router", "firewall"]) for _ in range(nr)]
+        routers = [t.router(k) for k in kinds]
+        notes["kinds"] = "+".join(kinds)
         # transit segments between consecutive routers
         transits = []
-        shared_switch = nr >= 2 and rng.chance(1, 4)
+        shared_switch = nr >= 2 and not wireless and rng.chance(1, 4)
         if shared_switch:
             # every router on ONE transit segment through a switch
             tp = rng.choice([29, 24])
@@ -131,7 +142,9 @@ def gen_case(rng: Rng, max_routers: int = 3) -> dict:
                 a, b = _ip(tnet, 1), _ip(tnet, 2)
                 pa = t.rport(routers[k], a, tp)
                 pb = t.rport(routers[k + 1], b, tp)
-                if rng.chance(1, 4):
+                if wireless:
+                    t.air.append([routers[k], pa, routers[k + 1], pb])
+                elif rng.chance(1, 4):
                     s = t.switch(3)
                     t.link(routers[k], pa, s, t.swport(s))
                     t.link(routers[k + 1], pb, s, t.swport(s))
@@ -141,7 +154,7 @@ def gen_case(rng: Rng, max_routers: int = 3) -> dict:
             notes["transit"] = "chain"
         # LANs
         for r in routers:
-            for _ in range(rng.range(1, 2)):
+            for _ in range(min(rng.range(1, 2), t.free_ports(r))):
                 p = rng.choice(lan_prefixes)
                 net = (192, 168, 10 + lan_id, 0) if p >= 24 else (172, 16 + lan_id, 0, 0)
                 lan_id += 1
@@ -195,6 +208,38 @@ def gen_case(rng: Rng, max_routers: int = 3) -> dict:
                         if lan["router"] is not None and pos[lan["router"]] < k:
                             node["routes"].append({"addr": _ip(lan["net"], 0), "mask": _mask(lan["p"]), "nh": transits[k - 1][0], "metric": 0})
     notes["routing"] = routing
+    # firewalls: which (rule list, payload class) pairs are permitted; lists 0 extIn 1 extOut 2 intIn 3 intOut 4 dmzIn 5 dmzOut,
+    # classes 0 ARP 1 ICMP 2 the UDP service
+    fw_mode = rng.choice(["open", "open", "no-service", "random", "default", "no-arp-one-list"])
+    for n in t.nodes:
+        if n["kind"] != "firewall":
+            continue
+        every = [[l, c] for l in range(6) for c in range(3)]
+        if fw_mode == "open":
+            n["permit"] = every
+        elif fw_mode == "no-service":
+            n["permit"] = [x for x in every if x[1] != 2 or rng.chance(1, 3)]
+        elif fw_mode == "random":
+            n["permit"] = [x for x in every if rng.chance(4, 5)]
+        elif fw_mode == "default":
+            n["permit"] = None  # no rules at all: the implicit actions (external lists permit, the others deny)
+        else:
+            drop = rng.below(6)
+            n["permit"] = [x for x in every if x != [drop, 0]]
+        notes["fw"] = fw_mode
+    # a dual-homed host: a second NIC on another LAN's switch (the switch keeps spare ports)
+    sw_lans = [l for l in t.lans if l.get("switch") is not None]
+    if len(t.lans) >= 2 and sw_lans and rng.chance(1, 4):
+        lan2 = rng.choice(sw_lans)
+        cands = [h for l in t.lans if l is not lan2 for h in l["hosts"]]
+        if cands:
+            h = rng.choice(cands)
+            s2 = lan2["switch"]
+            if t.nodes[s2]["used"] < t.nodes[s2]["ports"]:
+                ip2 = _ip(lan2["net"], 200 if lan2["p"] <= 24 else (100 if lan2["p"] == 25 else (50 if lan2["p"] == 26 else 12)))
+                t.nodes[h].setdefault("extra", []).append({"ip": ip2, "mask": _mask(lan2["p"])})
+                t.link(h, len(t.nodes[h]["extra"]), s2, t.swport(s2))
+                notes["dual_homed"] = h
     hosts = [i for i, n in enumerate(t.nodes) if n["kind"] == "host"]
     via_host = []
     if nr >= 1 and hosts and rng.chance(1, 6):
@@ -212,6 +257,12 @@ def gen_case(rng: Rng, max_routers: int = 3) -> dict:
             t.nodes[a]["gw"] = t.nodes[b]["ip"]
             via_host += [{"op": "ping", "src": a, "dst": "172.30.0.9", "count": 1}, {"op": "ping", "src": a, "dst": "8.8.4.4", "count": 2}]
             notes["gw_is_host"] = True
+    if hosts and rng.chance(1, 10):
+        # misconfiguration: a host whose default gateway lies outside its own subnet (unreachable gateway)
+        h = rng.choice(hosts)
+        t.nodes[h]["gw"] = "203.0.113.1"
+        via_host += [{"op": "ping", "src": h, "dst": "8.8.4.4", "count": 1}, {"op": "ping", "src": h, "dst": "203.0.113.1", "count": 1}]
+        notes["gw_off_subnet"] = True
     ops: List[dict] = []
     pairs = [(a, b) for a in hosts for b in hosts if a != b]
     pairs = rng.shuffle(pairs)
@@ -225,26 +276,64 @@ def gen_case(rng: Rng, max_routers: int = 3) -> dict:
             if lan["gw"]:
                 extra.append({"op": "ping", "src": h, "dst": lan["gw"], "count": 1})
             extra.append({"op": "ping", "src": h, "dst": _ip(lan["net"], 99 if lan["p"] <= 25 else 13), "count": 1})  # absent local
-    routers_idx = [i for i, n in enumerate(t.nodes) if n["kind"] == "router"]
+    routers_idx = [i for i, n in enumerate(t.nodes) if n["kind"] in L3_KINDS]
     for r in routers_idx:
         for prt in t.nodes[r]["ports"]:
             if prt and hosts and rng.chance(1, 2):
                 extra.append({"op": "ping", "src": rng.choice(hosts), "dst": prt["ip"], "count": 1})
+    if notes.get("dual_homed") is not None:
+        dh = notes["dual_homed"]
+        ip2 = t.nodes[dh]["extra"][0]["ip"]
+        others = rng.shuffle([x for x in hosts if x != dh])[:3]
+        for h in others:
+            extra.append({"op": "ping", "src": h, "dst": ip2, "count": 1})
+            extra.append({"op": "ping", "src": dh, "dst": t.nodes[h]["ip"], "count": 1})
+        # the NIC towards the default gateway goes down while the other stays up: off-link destinations have no way out
+        extra.append({"op": "disable", "node": dh, "ifc": 0})
+        extra.append({"op": "ping", "src": dh, "dst": "8.8.8.8", "count": 1})
+        for h in others[:2]:
+            extra.append({"op": "ping", "src": dh, "dst": t.nodes[h]["ip"], "count": 1})
+            extra.append({"op": "ping", "src": h, "dst": t.nodes[dh]["ip"], "count": 1})
+        extra.append({"op": "enable", "node": dh, "ifc": 0})
     if hosts:
         extra.append({"op": "ping", "src": rng.choice(hosts), "dst": "8.8.8.8", "count": 1})
         if routers_idx:
             extra.append({"op": "ping", "src": rng.choice(hosts), "dst": "10.0.0.5", "count": 1})  # unused transit address
             extra.append({"op": "ping", "src": rng.choice(hosts), "dst": "10.0.0.6", "count": 2})
     # toggles and cache resets interleaved with more pings
-    for _ in range(rng.range(1, 4)):
-        k = rng.below(4)
+    switches_idx = [i for i, n in enumerate(t.nodes) if n["kind"] == "switch"]
+    for _ in range(rng.range(1, 5)):
+        k = rng.below(7)
         if k == 0 and hosts:
             h = rng.choice(hosts)
-            extra.append({"op": "disable", "node": h, "ifc": 0})
+            i = rng.below(1 + len(t.nodes[h].get("extra", [])))
+            extra.append({"op": "disable", "node": h, "ifc": i})
             if pairs:
                 a, b = rng.choice(pairs)
                 extra.append({"op": "ping", "src": a, "dst": t.nodes[b]["ip"], "count": 1})
-            extra.append({"op": "enable", "node": h, "ifc": 0})
+                extra.append({"op": "ping", "src": h, "dst": t.nodes[b if b != h else a]["ip"], "count": 1})
+            extra.append({"op": "enable", "node": h, "ifc": i})
+        elif k == 4 and switches_idx:
+            sw = rng.choice(switches_idx)
+            i = rng.below(max(1, t.nodes[sw]["used"]))
+            extra.append({"op": "disable", "node": sw, "ifc": i})
+            if pairs:
+                for a, b in rng.shuffle(pairs)[:2]:
+                    extra.append({"op": "ping", "src": a, "dst": t.nodes[b]["ip"], "count": 1})
+            extra.append({"op": "enable", "node": sw, "ifc": i})
+        elif k in (5, 6):
+            n = rng.below(len(t.nodes))
+            extra.append({"op": "power", "node": n, "on": 0})
+            if pairs:
+                for a, b in rng.shuffle(pairs)[:2]:
+                    extra.append({"op": "ping", "src": a, "dst": t.nodes[b]["ip"], "count": 1})
+                if t.nodes[n]["kind"] == "host":
+                    others = [h for h in hosts if h != n]
+                    if others:
+                        extra.append({"op": "ping", "src": n, "dst": t.nodes[rng.choice(others)]["ip"], "count": 1})
+            if rng.chance(1, 3):  # a toggle of an interface of the powered-off node must not bring it up
+                extra.append({"op": "enable", "node": n, "ifc": 0})
+            extra.append({"op": "power", "node": n, "on": 1})
         elif k == 1 and routers_idx:
             r = rng.choice(routers_idx)
             used = [i for i, p in enumerate(t.nodes[r]["ports"]) if p]
@@ -280,11 +369,18 @@ def gen_case(rng: Rng, max_routers: int = 3) -> dict:
         svc.append({"op": "service", "src": clients[0], "dst": "8.8.8.8"})
     extra += via_host + svc + [dict(x) for x in svc[:2]]
     ops += rng.shuffle(extra) if rng.chance(1, 3) else extra
-    all_permit = all(t.nodes[r].get("flag") for r in routers_idx)
+    fws = [n for n in t.nodes if n["kind"] == "firewall"]
+
+    def fw_ok(classes):
+        return all(n["permit"] is not None and all([l, c] in n["permit"] for l in range(6) for c in classes) for n in fws)
+    all_permit = all(t.nodes[r].get("flag") for r in routers_idx if t.nodes[r]["kind"] != "firewall") and fw_ok([0, 1, 2])
     for n in t.nodes:
         n.pop("used", None)
-    return {"nodes": t.nodes, "links": t.links, "ops": ops, "notes": notes, "icmp_ident_zero": rng.chance(1, 10), "all_permit": all_permit,
-            "consistent": routing in ("static", "default", "mixed", "shadowed", "none") and not notes.get("gw_is_host")}
+    for l in t.lans:
+        l.pop("switch", None)
+    return {"nodes": t.nodes, "links": t.links, "air": t.air, "ping_permit": fw_ok([0, 1]), "ops": ops, "notes": notes, "icmp_ident_zero": rng.chance(1, 10), "all_permit": all_permit,
+            "consistent": routing in ("static", "default", "mixed", "shadowed", "none") and not notes.get("gw_is_host")
+            and not notes.get("gw_off_subnet")}
 
 
 # ------------------------------------------------------------------------------------------ model side
@@ -292,7 +388,7 @@ def mac_of(case: dict) -> Dict[Tuple[int, int], int]:
     """model MAC numbers: 1.. in (node, interface) order."""
     out, k = {}, 1
     for n, nd in enumerate(case["nodes"]):
-        cnt = 1 if nd["kind"] == "host" else (nd["ports"] if nd["kind"] == "switch" else len(nd["ports"]))
+        cnt = 1 + len(nd.get("extra", [])) if nd["kind"] == "host" else (nd["ports"] if nd["kind"] == "switch" else len(nd["ports"]))
         for i in range(cnt):
             out[(n, i)] = k
             k += 1
@@ -302,7 +398,7 @@ def mac_of(case: dict) -> Dict[Tuple[int, int], int]:
 def model_lines(case: dict) -> Tuple[List[str], List[int]]:
     macs = mac_of(case)
     linked = set()
-    for a, i, b, j in case["links"]:
+    for a, i, b, j in case["links"] + case.get("air", []):
         linked.add((a, i))
         linked.add((b, j))
     lines = ["reset", "net-new"]
@@ -310,6 +406,8 @@ def model_lines(case: dict) -> Tuple[List[str], List[int]]:
         if nd["kind"] == "host":
             lines.append(f"node host 1 {nd['gw'] or '-'}")
             lines.append(f"iface {n} {macs[(n, 0)]} {nd['ip']} {nd['mask']} {1 if (n, 0) in linked else 0}")
+            for i, x in enumerate(nd.get("extra", [])):
+                lines.append(f"iface {n} {macs[(n, i + 1)]} {x['ip']} {x['mask']} {1 if (n, i + 1) in linked else 0}")
         elif nd["kind"] == "switch":
             lines.append("node switch 1 -")
             for i in range(nd["ports"]):
@@ -323,7 +421,11 @@ def model_lines(case: dict) -> Tuple[List[str], List[int]]:
                 lines.append(f"route {n} {r['addr']} {r['mask']} {r['nh']} {r['metric']}")
             if nd["default"]:
                 lines.append(f"defroute {n} {nd['default']}")
-    for a, i, b, j in case["links"]:
+            if nd["kind"] == "firewall":
+                lines.append(f"fw {n}")
+                for l, c in (nd["permit"] if nd["permit"] is not None else [[l, c] for l in (0, 1) for c in range(3)]):
+                    lines.append(f"fwpermit {n} {l} {c}")
+    for a, i, b, j in case["links"] + case.get("air", []):
         lines.append(f"link {a} {i} {b} {j}")
     for n, nd in enumerate(case["nodes"]):
         if nd.get("flag"):
@@ -338,6 +440,8 @@ def model_lines(case: dict) -> Tuple[List[str], List[int]]:
             lines.append(f"service {op['src']} {op['dst']}")
         elif op["op"] in ("enable", "disable"):
             lines.append(f"{op['op']} {op['node']} {op['ifc']}")
+        elif op["op"] == "power":
+            lines.append(f"power {op['node']} {op['on']}")
         else:
             lines.append(f"arpclear {op['node']}")
     for n, nd in enumerate(case["nodes"]):
@@ -407,7 +511,8 @@ class Recorder:
             rec._saved.append((cls, "receive_frame", orig))
             cls.receive_frame = receive_frame
 
-        for c in (NIC, RouterInterface, SwitchPort):
+        from primaite.simulator.network.hardware.nodes.network.wireless_router import WirelessAccessPoint
+        for c in (NIC, RouterInterface, SwitchPort, WirelessAccessPoint):
             wrap_rx(c)
         orig_dec = Frame.decrement_ttl
 
@@ -460,22 +565,59 @@ def build_impl(case: dict, rec: Recorder):
     from primaite.simulator.network.hardware.nodes.network.switch import Switch
     net = Network()
     objs = []
+    CLS_RULE = {0: {"protocol": "UDP", "src_port": "ARP", "dst_port": "ARP"}, 1: {"protocol": "ICMP"},
+                2: {"protocol": "UDP", "src_port": "NTP", "dst_port": "NTP"}}
+    FW_LISTS = ["external_inbound_acl", "external_outbound_acl", "internal_inbound_acl", "internal_outbound_acl", "dmz_inbound_acl",
+                "dmz_outbound_acl"]
     for n, nd in enumerate(case["nodes"]):
+        routes = [{"address": r["addr"], "subnet_mask": r["mask"], "next_hop_ip_address": r["nh"], "metric": r["metric"]}
+                  for r in nd.get("routes", [])]
         if nd["kind"] == "host":
-            cfg = {"type": "computer", "hostname": f"h{n}", "ip_address": nd["ip"], "subnet_mask": nd["mask"], "start_up_duration": 0}
+            cfg = {"type": "computer", "hostname": f"h{n}", "ip_address": nd["ip"], "subnet_mask": nd["mask"], "start_up_duration": 0,
+                   "shut_down_duration": 0}
             if nd["gw"]:
                 cfg["default_gateway"] = nd["gw"]
             o = Computer.from_config(config=cfg)
+            for x in nd.get("extra", []):  # a multi-homed host
+                from primaite.simulator.network.hardware.nodes.host.host_node import NIC
+                o.connect_nic(NIC(ip_address=x["ip"], subnet_mask=x["mask"], gateway=nd["gw"] or "0.0.0.0"))
             if nd.get("flag"):
                 from primaite.simulator.system.services.ntp.ntp_server import NTPServer
                 o.software_manager.install(NTPServer)
         elif nd["kind"] == "switch":
-            o = Switch.from_config(config={"type": "switch", "hostname": f"s{n}", "num_ports": nd["ports"], "start_up_duration": 0})
+            o = Switch.from_config(config={"type": "switch", "hostname": f"s{n}", "num_ports": nd["ports"], "start_up_duration": 0,
+                                           "shut_down_duration": 0})
+        elif nd["kind"] == "firewall":
+            from primaite.simulator.network.hardware.nodes.network.firewall import Firewall
+            cfg = {"type": "firewall", "hostname": f"f{n}", "start_up_duration": 0, "shut_down_duration": 0, "routes": routes}
+            if nd["default"]:
+                cfg["default_route"] = {"next_hop_ip_address": nd["default"]}
+            if nd["permit"] is not None:
+                # every list gets one explicit rule per payload class, so its implicit action never decides
+                cfg["acl"] = {name: {c + 1: dict(CLS_RULE[c], action="PERMIT" if [l, c] in nd["permit"] else "DENY") for c in range(3)}
+                              for l, name in enumerate(FW_LISTS)}
+            o = Firewall.from_config(cfg)
+            o.power_on()
+            for i, p in enumerate(nd["ports"]):
+                if p:
+                    o.configure_port(i + 1, p["ip"], p["mask"])
+        elif nd["kind"] == "wrouter":
+            from primaite.simulator.network.hardware.nodes.network.wireless_router import WirelessRouter
+            cfg = {"type": "wireless-router", "hostname": f"w{n}", "start_up_duration": 0, "shut_down_duration": 0, "routes": routes}
+            if nd["ports"][0]:
+                cfg["wireless_access_point"] = {"ip_address": nd["ports"][0]["ip"], "subnet_mask": nd["ports"][0]["mask"],
+                                                "frequency": "WIFI_2_4"}
+            if nd["ports"][1]:
+                cfg["router_interface"] = {"ip_address": nd["ports"][1]["ip"], "subnet_mask": nd["ports"][1]["mask"]}
+            if nd.get("flag"):
+                cfg["acl"] = {1: {"action": "PERMIT", "protocol": "UDP", "src_port": "NTP", "dst_port": "NTP"}}
+            o = WirelessRouter.from_config(cfg, airspace=net.airspace)
+            if nd["default"]:
+                o.route_table.set_default_route_next_hop_ip_address(nd["default"])
         else:
-            cfg = {"type": "router", "hostname": f"r{n}", "num_ports": len(nd["ports"]), "start_up_duration": 0,
+            cfg = {"type": "router", "hostname": f"r{n}", "num_ports": len(nd["ports"]), "start_up_duration": 0, "shut_down_duration": 0,
                    "ports": {i + 1: {"ip_address": p["ip"], "subnet_mask": p["mask"]} for i, p in enumerate(nd["ports"]) if p},
-                   "routes": [{"address": r["addr"], "subnet_mask": r["mask"], "next_hop_ip_address": r["nh"], "metric": r["metric"]}
-                              for r in nd["routes"]]}
+                   "routes": routes}
             if nd["default"]:
                 cfg["default_route"] = {"next_hop_ip_address": nd["default"]}
             if nd.get("flag"):
@@ -490,9 +632,12 @@ def build_impl(case: dict, rec: Recorder):
     ifaces = [list(o.network_interfaces.values()) for o in objs]
     for a, i, b, j in case["links"]:
         net.connect(endpoint_a=ifaces[a][i], endpoint_b=ifaces[b][j])
-    for a, i, b, j in case["links"]:  # everything up (routers' ports need an explicit enable)
+    for a, i, b, j in case["links"] + case.get("air", []):  # everything up (routers' ports need an explicit enable)
         ifaces[a][i].enable()
         ifaces[b][j].enable()
+    for n, nd in enumerate(case["nodes"]):  # a wireless access point comes up without a link; unused ones stay down
+        if nd["kind"] == "wrouter" and not any(n in (a, b) for a, i, b, j in case.get("air", [])):
+            ifaces[n][0].disable()
     # known initial state: cold caches, empty MAC tables, idle links
     for o in objs:
         if hasattr(o, "mac_address_table"):
@@ -502,6 +647,7 @@ def build_impl(case: dict, rec: Recorder):
             o.software_manager.icmp.clear()
     for link in net.links.values():
         link.current_load = 0.0
+    net.airspace.reset_bandwidth_load()
     rec.take()
     return net, objs, ifaces
 
@@ -548,6 +694,7 @@ def run_impl(case: dict) -> Tuple[List[str], List[dict]]:
                 continue
             for link in net.links.values():
                 link.current_load = 0.0
+            net.airspace.reset_bandwidth_load()
             res = "ok"
             try:
                 if op["op"] == "ping":
@@ -563,6 +710,11 @@ def run_impl(case: dict) -> Tuple[List[str], List[dict]]:
                     ifaces[op["node"]][op["ifc"]].enable()
                 elif op["op"] == "disable":
                     ifaces[op["node"]][op["ifc"]].disable()
+                elif op["op"] == "power":
+                    if op["on"]:
+                        objs[op["node"]].power_on()
+                    else:
+                        objs[op["node"]].power_off()
                 else:
                     objs[op["node"]].software_manager.arp.clear()
             except Exception as e:  # RecursionError, also wrapped by pydantic's serializer inside Frame.size
@@ -582,7 +734,7 @@ def run_impl(case: dict) -> Tuple[List[str], List[dict]]:
                     toks.append(f"sw:{e[1]}:{id(e[2])}")
             if res == "OOF":
                 answers.append("OOF")
-            elif op["op"] in ("ping", "enable", "service"):
+            elif op["op"] in ("ping", "enable", "service") or (op["op"] == "power" and op["on"]):
                 answers.append(" ".join([res] + canon_events(toks)))
             else:
                 answers.append("ok")
@@ -613,8 +765,8 @@ def arp_sound_oracle(case: dict, answers: List[str]) -> Optional[dict]:
     for (n, i), m in macs.items():
         nd = case["nodes"][n]
         if nd["kind"] == "host":
-            owner[m] = ("host", nd["ip"])
-        elif nd["kind"] == "router":
+            owner[m] = ("host", nd["ip"] if i == 0 else nd["extra"][i - 1]["ip"])
+        elif nd["kind"] in L3_KINDS:
             p = nd["ports"][i]
             owner[m] = ("router", p["ip"] if p else "127.0.0.1")
         else:
@@ -638,6 +790,7 @@ def oracle(case: dict, records: List[dict]) -> Optional[dict]:
     lower than the previous and nothing is processed with an exhausted TTL; (c) software is handed a unicast frame only on
     the node owning its destination address; (d) on a consistent, fully-up topology every host-to-host ping succeeds."""
     down = set()
+    off = set()
     for k, r in enumerate(records):
         op = r["op"]
         if r["res"] == "OOF":
@@ -661,12 +814,19 @@ def oracle(case: dict, records: List[dict]) -> Optional[dict]:
         if op["op"] == "disable":
             down.add((op["node"], op["ifc"]))
         elif op["op"] == "enable":
-            down.discard((op["node"], op["ifc"]))
-        elif op["op"] == "service" and case.get("consistent") and case.get("all_permit") and not down and r["res"] != "1":
+            if op["node"] not in off:
+                down.discard((op["node"], op["ifc"]))
+        elif op["op"] == "power":
+            if op["on"]:
+                off.discard(op["node"])
+                down = {x for x in down if x[0] != op["node"]}
+            else:
+                off.add(op["node"])
+        elif op["op"] == "service" and case.get("consistent") and case.get("all_permit") and not down and not off and r["res"] != "1":
             servers_ip = {nd["ip"] for nd in case["nodes"] if nd["kind"] == "host" and nd.get("flag")}
             if op["dst"] in servers_ip:
                 return {"kind": "permitted-exchange-failed", "op": k, "what": f"service request {op['src']} -> {op['dst']} got no reply on a consistent, fully-up, all-permitting topology"}
-        elif op["op"] == "ping" and case.get("consistent") and not down and r["res"] != "1":
+        elif op["op"] == "ping" and case.get("consistent") and case.get("ping_permit", True) and not down and not off and r["res"] != "1":
             hosts_ip = {nd["ip"]: n for n, nd in enumerate(case["nodes"]) if nd["kind"] == "host"}
             if op["dst"] in hosts_ip:
                 return {"kind": "permitted-exchange-failed", "op": k, "what": f"ping {op['src']} -> {op['dst']} failed on a consistent, fully-up topology"}
